@@ -562,6 +562,9 @@ func init() {
 		}
 		return c64(s, -1)
 	})
+	// regexp is not modelled: a compiled pattern is an opaque nil handle; any method call on it aborts
+	// the run (nil receiver -> panic site), so harnesses must not reach regexp-using code
+	reg("regexp.MustCompile", func(s *State, fn *ssa.Function, a []Value) Value { return Ptr{} })
 	reg("internal/bytealg.MakeNoZero", func(s *State, fn *ssa.Function, a []Value) Value {
 		n := s.concretizeLen(a[0].(*Term), "MakeNoZero")
 		return s.makeSlice(types.Typ[types.Uint8], n, n)
